@@ -550,6 +550,23 @@ func init() {
 				var current Transporter
 				var staged Transporter
 				var ops []string
+				var states []string // open transports / network connections after every operation (vs Model/CT)
+				snap := func() {
+					xb, cb := "", ""
+					for k, x := range xps {
+						if x.IsConnected() {
+							xb += "1"
+						} else {
+							xb += "0"
+						}
+						if simClosed(xconns[k]) {
+							cb += "0"
+						} else {
+							cb += "1"
+						}
+					}
+					states = append(states, "x="+xb+" c="+cb)
+				}
 				bad := ""
 				check := func(what string) {
 					if bad != "" {
@@ -627,12 +644,16 @@ func init() {
 						}
 						nOps++
 						synctest.Wait()
+						if len(states) < len(ops) {
+							snap()
+						}
 					}
 					if bad == "" {
 						ct.Close()
 						ops = append(ops, "close")
 						synctest.Wait()
 						check("close")
+						snap()
 					}
 				}()
 				kind := "plain"
@@ -645,6 +666,12 @@ func init() {
 					c.res("FAIL %s %s: %s", kind, strings.Join(ops, ","), bad)
 				} else {
 					c.res("ok")
+				}
+				if bad == "" && len(ops) > 0 && len(states) == len(ops) {
+					// the same operations through the model of the two transports: which transports and connections are open
+					c.note("builtin-model %s ops=%s", kind, strings.Join(ops, ","))
+					c.op("ct %d %s", map[bool]int{true: 1, false: 0}[useTLS], strings.Join(ops, ","))
+					c.res("%s", strings.Join(states, " | "))
 				}
 				for _, sc := range td.conns {
 					sc.Close()
